@@ -53,6 +53,18 @@ def discharge(ob, axioms, second_opinion=True) -> Verdict:
     if r == z3.sat:
         return Verdict("failed", "z3-" + z3.get_version_string(), ms, model=s.model())
     reason = s.reason_unknown()
+    if "timeout" in reason or "canceled" in reason:
+        # a budget hit is not a verdict: one more attempt with three times the budget and another seed, so that a busy
+        # machine does not flip a result (obligations that verified in milliseconds on an idle one)
+        s2 = _mk_solver(axioms, ob.assumptions, ob.goal, Z3_MS * 3)
+        s2.set("random_seed", 7)
+        r2 = s2.check()
+        ms = int((time.time() - t0) * 1000)
+        if r2 == z3.unsat:
+            return Verdict("discharged", "z3-" + z3.get_version_string() + "(retry)", ms)
+        if r2 == z3.sat:
+            return Verdict("failed", "z3-" + z3.get_version_string() + "(retry)", ms, model=s2.model())
+        reason = s2.reason_unknown()
     if second_opinion:
         v2 = second_opinion_cli(s)
         if v2 is not None:
